@@ -30,6 +30,7 @@ def run(ctx):
                       "split_tokens_by_pipes, Command::from_tokens, tokens_to_redirections) the tokenizers parse_line / "
                       "line_to_plain_tokens / line_to_cmds are applied to the typed line parameter only, never to the text "
                       "of a token")
+    ctx.rule("R13-7", "results of command substitution are not interpreted by a later pass (the order rule of C11 R11-11)")
     ctx.rule("R13-4", "an expansion result is written into the token it was computed for: positions recorded while a pass "
                       "scans the token vector are not used after the vector's length changed (E-EDITLIST), so text "
                       "produced under one quote tag cannot land in a neighbouring word with a different tag")
@@ -44,6 +45,8 @@ def run(ctx):
         split_rule(ctx, crate)
         whole_subst_guard_rule(ctx, crate)
         retokenize_rule(ctx, crate)
+        from .c11 import pass_order_rule
+        pass_order_rule(ctx, crate, "R13-7")
 
 
 def passes_in_order(crate):
